@@ -49,6 +49,8 @@ pub struct Params {
     pub all_stores: bool,
     pub leaf_rate: u32, // percent of creations that are leaves
     pub quiesce_end: bool,
+    pub cleaner_idioms: bool,
+    pub exact_threshold_prologue: u32, // percent of runs that start by driving allocated bytes exactly onto the threshold
 }
 
 fn set(w: &mut [u32; OpCode::COUNT], list: &[(OpCode, u32)]) {
@@ -83,7 +85,7 @@ pub fn params(profile: &str) -> Params {
     let fin_all = vec![
         (M::Read, 6), (M::ClearSlot, 4), (M::ChildToRoot, 5), (M::ChildToNode, 3), (M::GrandToRoot, 2), (M::SelfWeakToRoot, 2), (M::WeakToRoot, 3),
         (M::WeakToDrop, 2), (M::DropRoot, 4), (M::Alloc, 3), (M::AllocDrop, 2), (M::Collect, 2), (M::TryUnwrapRoot, 1), (M::FinAgainRoot, 1),
-        (M::DowngradeRoot, 1), (M::MarkAliveRoot, 1),
+        (M::DowngradeRoot, 1), (M::MarkAliveRoot, 1), (M::SelfWeakToSlot, 1), (M::WeakToSlot, 1), (M::AllocCyclic, 1),
     ];
     let drop_all = vec![(M::WeakToRoot, 4), (M::SelfWeakToRoot, 2), (M::Collect, 2), (M::TryUnwrapRoot, 1), (M::FinAgainRoot, 1), (M::Alloc, 1)];
     let act_all = vec![(M::WeakToRoot, 3), (M::WeakToDrop, 2), (M::Alloc, 2), (M::AllocDrop, 2), (M::CleanOther, 3), (M::Collect, 1), (M::DropRoot, 1)];
@@ -106,11 +108,22 @@ pub fn params(profile: &str) -> Params {
         all_stores: true,
         leaf_rate: 10,
         quiesce_end: true,
+        cleaner_idioms: false,
+        exact_threshold_prologue: 0,
     };
     let all_faults = vec![
         FaultKind::Trace, FaultKind::TraceEdge, FaultKind::Finalize, FaultKind::FinalizePost, FaultKind::Drop, FaultKind::DropPost,
         FaultKind::LeafFinalize, FaultKind::LeafDrop, FaultKind::Action, FaultKind::Closure,
     ];
+    if let Some(base) = profile.strip_suffix("-faults") {
+        if base != "graph" && base != "cyclic" {
+            // any profile with injected callback panics on top
+            let mut q = params(base);
+            q.faults = 100;
+            q.fault_kinds = all_faults;
+            return q;
+        }
+    }
     match profile {
         "graph" => {}
         "graph-faults" => {
@@ -124,7 +137,7 @@ pub fn params(profile: &str) -> Params {
         }
         "resurrect" => {
             p.fin_rate = 85;
-            p.fin_minis = vec![(M::ChildToRoot, 8), (M::ChildToNode, 5), (M::GrandToRoot, 3), (M::SelfWeakToRoot, 5), (M::WeakToRoot, 5), (M::DropRoot, 4), (M::ClearSlot, 3), (M::Alloc, 3), (M::Read, 3), (M::AllocDrop, 2)];
+            p.fin_minis = vec![(M::ChildToRoot, 8), (M::ChildToNode, 5), (M::GrandToRoot, 3), (M::SelfWeakToRoot, 5), (M::WeakToRoot, 5), (M::DropRoot, 4), (M::ClearSlot, 3), (M::Alloc, 3), (M::Read, 3), (M::AllocDrop, 2), (M::SelfWeakToSlot, 4), (M::WeakToSlot, 4)];
             p.idiom_rate = 45;
             set(&mut p.w, &[(O::Collect, 12), (O::StoreWeak, 5), (O::NewCyclic, 5)]);
         }
@@ -139,6 +152,8 @@ pub fn params(profile: &str) -> Params {
             set(&mut p.w, &[(O::Register, 14), (O::Clean, 8), (O::DropCleanable, 4), (O::Downgrade, 5), (O::Collect, 8)]);
             p.fin_rate = 10;
             p.drop_rate = 5;
+            p.cleaner_idioms = true;
+            p.idiom_rate = 40;
         }
         "buffer" => {
             // C11 exact: finalizers and destructors observe but never manipulate pointers; no cleaners
@@ -150,9 +165,9 @@ pub fn params(profile: &str) -> Params {
         "nesting" => {
             p.fin_rate = if HAS_FIN { 70 } else { 0 };
             p.drop_rate = 60;
-            p.fin_minis = vec![(M::Collect, 6), (M::Alloc, 5), (M::AllocDrop, 3), (M::TryUnwrapRoot, 4), (M::FinAgainRoot, 4), (M::DropRoot, 4), (M::Read, 1)];
-            p.drop_minis = vec![(M::Collect, 6), (M::Alloc, 4), (M::TryUnwrapRoot, 3), (M::FinAgainRoot, 3)];
-            p.act_minis = vec![(M::Collect, 5), (M::Alloc, 4), (M::AllocDrop, 3), (M::CleanOther, 2)];
+            p.fin_minis = vec![(M::Collect, 6), (M::Alloc, 5), (M::AllocDrop, 3), (M::AllocCyclic, 3), (M::TryUnwrapRoot, 4), (M::FinAgainRoot, 4), (M::DropRoot, 4), (M::Read, 1)];
+            p.drop_minis = vec![(M::Collect, 6), (M::Alloc, 4), (M::AllocCyclic, 2), (M::TryUnwrapRoot, 3), (M::FinAgainRoot, 3)];
+            p.act_minis = vec![(M::Collect, 5), (M::Alloc, 4), (M::AllocDrop, 3), (M::AllocCyclic, 2), (M::CleanOther, 2)];
             p.auto_rate = 70;
             set(&mut p.w, &[(O::Register, 5), (O::Clean, 3)]);
         }
@@ -177,6 +192,7 @@ pub fn params(profile: &str) -> Params {
             p.ops = (6, 24, 64);
             p.fin_rate = 10;
             p.drop_rate = 0;
+            p.exact_threshold_prologue = 25;
         }
         "saturate" => {
             set(&mut p.w, &[(O::BulkClone, 10), (O::BulkUpgrade, 6), (O::BulkWeakClone, 6), (O::BulkDowngrade, 6), (O::BulkDrop, 6), (O::BulkWeakDrop, 4), (O::Clone, 8), (O::Upgrade, 6), (O::Downgrade, 6), (O::WeakClone, 4)]);
@@ -224,7 +240,7 @@ impl<'a> Gen<'a> {
                 let a = [self.r.below(8) as i64, if c.nargs() >= 2 { h } else { 0 }, self.r.below(8) as i64];
                 let a = match c {
                     MiniCode::DropRoot | MiniCode::TryUnwrapRoot | MiniCode::FinAgainRoot | MiniCode::DowngradeRoot | MiniCode::MarkAliveRoot | MiniCode::CleanOther => [h, 0, 0],
-                    MiniCode::Alloc | MiniCode::AllocDrop => [*self.r.pick(&self.stores) as i64, 0, 0],
+                    MiniCode::Alloc | MiniCode::AllocDrop | MiniCode::AllocCyclic => [*self.r.pick(&self.stores) as i64, 0, 0],
                     MiniCode::CloneRootToSlot => [self.r.below(4) as i64, h, 0],
                     _ => a,
                 };
@@ -269,6 +285,7 @@ impl<'a> Gen<'a> {
             "B" | "MD" | "AUS" | "RC" => 1,
             "VO" => 2, "BA" => 3, "OBT" => if pat & 1 == 0 { 2 } else { 0 }, "AV" => 2 * n as u32, "TRO" => 2 - (pat >> 1 & 1),
             "AUT" => 2, "VT" => 2 * n as u32, "AO" => 2, "RR" => if pat & 1 == 0 { n as u32 } else { 1 },
+            "VMD" | "BSMD" | "VAUS" | "VRC" => n as u32, "AOMD" | "TMD" => 2,
             t if t.starts_with('T') => t[1..].parse().unwrap_or(1),
             _ => 1,
         }
@@ -338,7 +355,8 @@ impl<'a> Gen<'a> {
             }
             O::NewBorrowed => {
                 let t = self.tmpl();
-                Op::new(O::NewBorrowed, &[n]).with_tmpl(t)
+                let mode = self.r.below(2) as i64;
+                Op::new(O::NewBorrowed, &[n, mode]).with_tmpl(t)
             }
             O::NewInConfig => {
                 let t = self.tmpl();
@@ -402,7 +420,8 @@ impl<'a> Gen<'a> {
     fn idiom(&mut self) {
         use OpCode as O;
         let base = self.sh.roots.len() as i64;
-        match self.r.below(9) {
+        let kinds = if self.p.cleaner_idioms { 11 } else { 9 };
+        match self.r.below(kinds) {
             0 => {
                 // self loop, dropped
                 let t = self.tmpl();
@@ -486,6 +505,51 @@ impl<'a> Gen<'a> {
                 if self.r.chance(1, 2) {
                     self.push(Op::new(O::Collect, &[]));
                     self.push(Op::new(O::ClearSlot, &[base, 0]));
+                }
+            }
+            9 | 10 => {
+                // one cleaner with several actions: clean some, register more, clean stale ones again, release the owner
+                if HAS_CLEAN {
+                    let t = self.tmpl();
+                    self.push(Op::new(O::New, &[]).with_tmpl(t));
+                    let t2 = self.tmpl();
+                    self.push(Op::new(O::New, &[]).with_tmpl(t2));
+                    let c0 = self.sh.cleanables as i64;
+                    let k = 1 + self.r.below(6) as i64;
+                    for _ in 0..k {
+                        let pool = self.p.act_minis.clone();
+                        let s = if self.r.chance(1, 2) { self.script(&pool, 2) } else { vec![] };
+                        let cap = match self.r.below(4) { 0 => base + 1, 1 => self.handle_guess(), _ => -1 };
+                        self.push(Op::new(O::Register, &[base, cap]).with_script(s));
+                    }
+                    if self.r.chance(1, 2) {
+                        // the neighbour holds the only strong pointer to the owner
+                        self.push(Op::new(O::SetSlot, &[base + 1, 0, base]));
+                        self.push(Op::new(O::Drop, &[base]));
+                    }
+                    let ncl = if self.r.chance(1, 2) { k } else { self.r.below(k as u64 + 1) as i64 };
+                    for i in 0..ncl {
+                        self.push(Op::new(O::Clean, &[c0 + i]));
+                    }
+                    if self.r.chance(1, 2) {
+                        for _ in 0..(1 + self.r.below(3)) {
+                            self.push(Op::new(O::Register, &[base, -1]));
+                        }
+                        for i in 0..k {
+                            if self.r.chance(1, 2) {
+                                self.push(Op::new(O::Clean, &[c0 + i]));
+                            }
+                        }
+                    }
+                    if self.r.chance(2, 3) {
+                        self.push(Op::new(O::Drop, &[base + 1]));
+                        self.push(Op::new(O::Drop, &[base]));
+                    }
+                    if self.r.chance(1, 2) {
+                        self.push(Op::new(O::Collect, &[]));
+                    }
+                } else {
+                    self.push(Op::new(O::Collect, &[]));
                 }
             }
             7 => {
@@ -589,6 +653,35 @@ pub fn generate(profile: &str, seed: u64, index: u64) -> Program {
     }
     let nops = r.size(p.ops.0, p.ops.1, p.ops.2);
     let mut g = Gen { r, p: &p, sh: Shadow { roots: vec![], weaks: 0, cleanables: 0, bag: 0, objects: 0 }, ops: vec![], stores, w };
+    if HAS_AUTO && g.r.below(100) < p.exact_threshold_prologue as u64 {
+        // Boxes of 48 + 48 + 40 + 64 bytes: the 4th creation finds 136 > 100 bytes and collects, the threshold becomes
+        // 200, and then exactly 200 bytes are allocated: the next creation must NOT collect ("exceeds", not "reaches").
+        // Optionally on to 336 -> collection -> threshold 400 -> exactly 400 bytes.
+        prog.knobs.auto = true;
+        prog.knobs.buffered = 0;
+        for ly in [24i64, 24, 0, 32] {
+            g.push(Op::new(OpCode::NewLeaf, &[ly]));
+        }
+        if g.r.chance(1, 2) {
+            for ly in [40i64, 32] {
+                g.push(Op::new(OpCode::NewLeaf, &[ly]));
+            }
+        }
+        if g.r.chance(1, 2) {
+            let ly = g.r.below(N_LAYOUTS as u64) as i64;
+            g.push(Op::new(OpCode::NewLeaf, &[ly]));
+        } else {
+            // ... or grow to 336 bytes, collect (threshold 400), shrink back to exactly 200 = threshold / 2 and collect
+            // with adjustment_percent >= 0.5: halving would land exactly on the allocated bytes, so it must not happen
+            let h = g.sh.roots.len() as i64;
+            g.push(Op::new(OpCode::NewLeaf, &[40]));
+            g.push(Op::new(OpCode::Collect, &[]));
+            g.push(Op::new(OpCode::Drop, &[h]));
+            let pm = if g.r.chance(1, 2) { 500 } else { 1000 };
+            g.push(Op::new(OpCode::CfgPercent, &[pm]));
+            g.push(Op::new(OpCode::Collect, &[]));
+        }
+    }
     while (g.ops.len() as u64) < nops {
         if g.r.below(100) < p.idiom_rate as u64 && g.sh.objects + 4 <= p.max_objects {
             g.idiom();
